@@ -222,7 +222,7 @@ def main(pid, tier, seed):
     mc = mc_stage()
     traces, meta = [], {}
     tid = 0
-    n_lists = 10 if tier == 'quick' else 120
+    n_lists = 10 if tier == 'quick' else 500
     n_train = 0
     for k in range(n_lists):
         pool = rng.choice(list(POOLS))
